@@ -413,6 +413,37 @@ def one_case(ctx, ds, shape, mask_kind=None, which=None):
             ctx.count("prior-query-of-the-order-family")
         except Exception:  # noqa: BLE001  (never decides anything)
             pass
+    if shape is not None and getattr(flw, "cache", True) and rng.random() < 0.3:
+        # earlier queries with NON-DEFAULT thresholds that bite on this raster (a few cells): sub-basins above an
+        # upstream-area threshold (Pfafstetter / area), orders / sub-basins / streams inside an upstream-area stream mask,
+        # main stems for a user area map; the order maps and main upstream cells the object holds must not notice
+        try:
+            k = rng.choice(sorted(set(c for c in cnt if c >= 2)) or [2])
+            upa_np = np.array(cnt, dtype=np.float64).reshape(shape)
+            u = rng.random()
+            if u < 0.3:
+                flw.subbasins_pfafstetter(depth=rng.choice([1, 2]), upa_min=float(k) + rng.choice([0.0, 0.5]),
+                                          **({"uparea": upa_np} if rng.random() < 0.5 else {}))
+                what = "subbasins_pfafstetter(upa_min)"
+            elif u < 0.5:
+                flw.subbasins_area(float(k), **({"uparea": upa_np} if rng.random() < 0.5 else {}))
+                what = "subbasins_area(area_min)"
+            elif u < 0.65:
+                flw.stream_order(type=rng.choice(["strahler", "classic"]), mask=upa_np >= k)
+                what = "stream_order(mask=uparea>=k)"
+            elif u < 0.8:
+                flw.subbasins_streamorder(min_sto=rng.choice([-2, -1, 2, 3]), mask=upa_np >= k)
+                what = "subbasins_streamorder(mask=uparea>=k)"
+            elif u < 0.9:
+                flw.streams(min_sto=rng.choice([1, 2]), mask=upa_np >= k)
+                what = "streams(mask=uparea>=k)"
+            else:
+                flw.floodplains(np.zeros(shape, dtype=np.float32), upa_min=float(k))
+                what = "floodplains(upa_min)"
+            ctx.count("feature:prior-threshold-query")
+            ctx.count("feature:prior-threshold-query:" + what)
+        except Exception:  # noqa: BLE001  (never decides anything)
+            pass
     if which == "strahler":
         spell = rng.choice(["strahler", "strahler", "Strahler", "STRAHLER", None])
         kw = {} if spell is None else {"type": spell}
